@@ -105,12 +105,16 @@ def compare_cases(res, files, model_obs, impl_obs, prefixes, oracle=None, what="
         if load_only or io != "ok":
             continue
         a, b = vlib.section(m, prefixes), vlib.section(i, prefixes)
-        if spec_backed and [canon_line(x) for x in a] != [canon_line(x) for x in b]:
-            d = vlib.first_diff([canon_line(x) for x in a], [canon_line(x) for x in b])
+        if spec_backed and a != b:
+            # the theorems fix every channel of every pixel (also the RGB of fully transparent ones,
+            # which the repository's own image comparison ignores): say so when only those differ
+            only_hidden = [canon_line(x) for x in a] == [canon_line(x) for x in b]
+            d = vlib.first_diff(a, b)
             res.oracle_failures.append({
                 "id": cid, "input_hex": data.hex(), "call": what,
                 "what": f"the implementation reports `{d[2][:300]}` where the property specifies `{d[1][:300]}` "
-                        f"(expected value computed by the Lean model, proved equal to the specification by {spec_backed})"})
+                        f"(expected value computed by the Lean model, proved equal to the specification by {spec_backed})"
+                        + ("; the images differ only in the RGB of fully transparent pixels" if only_hidden else "")})
             continue
         if a != b:
             d = vlib.first_diff(a, b)
@@ -347,8 +351,8 @@ def wf_routine(prefixes, gens, rule, oracle=must_load_oracle, corpus=True, extra
         for cid, data in files:
             if cid == "color-curve.aseprite":
                 continue
-            a = [canon_line(x) for x in vlib.section(impl_obs[cid], prefixes + ["load"])]
-            b = [canon_line(x) for x in vlib.section(chk_obs.get(cid) or ["load missing"], prefixes + ["load"])]
+            a = vlib.section(impl_obs[cid], prefixes + ["load"])
+            b = vlib.section(chk_obs.get(cid) or ["load missing"], prefixes + ["load"])
             res.evaluations += 1
             if a != b:
                 d = vlib.first_diff(a, b)
